@@ -11,7 +11,7 @@ set -u
 [ -f $SRC/patch.diff ] || { echo "no patch $SRC"; exit 2; }
 FEAT=$(python3 -c "import json;print(json.load(open('$SRC/meta.json')).get('features','') or '')" 2>/dev/null)
 FFLAG=""; [ -n "$FEAT" ] && FFLAG="--features $FEAT"
-cd $WT || exit 2
+[ -d $WT ] || git -C /repo worktree add -q --detach $WT HEAD; cd $WT || exit 2
 git checkout -q -- . ; git clean -fdq tests/ 2>/dev/null
 git -c advice.detachedHead=false checkout -q --detach $(git -C /repo rev-parse HEAD) || exit 2
 cp $SRC/demo.rs tests/demo_${PID}_$K.rs
